@@ -63,7 +63,7 @@ fn max_cmds(acts: &[Act]) -> usize {
     3 + acts.iter().map(|a| match a {
         Act::Start(_, c) => 2 + c.iter().map(|x| match x { CAct::Port(_) => 2, CAct::Panic => 0, _ => 1 }).sum::<usize>(),
         Act::Shell(_) | Act::Sbom => 1, Act::Panic => 0,
-        Act::Rebuild(_, inner) => max_cmds(inner) - 2,
+        Act::Rebuild(_, inner) | Act::RebuildCtx(_, inner) => max_cmds(inner) - 2,
     }).sum::<usize>()
 }
 
@@ -74,6 +74,7 @@ fn describe(tree: &Tree, bcfgs: &[BCfg], inj: &str) -> (Vec<(String, String)>, b
             Act::Panic => { *top_panic += 1; shapes.push("panic"); }
             Act::Shell(_) => shapes.push("shell"), Act::Sbom => shapes.push("sbom"),
             Act::Start(_, c) => { shapes.push("start"); if !c.is_empty() { *depth = (*depth).max(d + 1); } for y in c { match y { CAct::Panic => *ctr_panic += 1, CAct::Port(9999) => *unexposed += 1, _ => {} } } }
+            Act::RebuildCtx(_, inner) => { shapes.push("rebuild-from-context-config"); walk(inner, top_panic, ctr_panic, unexposed, shapes, depth, d + 1); }
             Act::Rebuild(_, inner) => { shapes.push("rebuild"); walk(inner, top_panic, ctr_panic, unexposed, shapes, depth, d + 1); }
         } }
     }
@@ -128,6 +129,13 @@ fn generate(tier: &str, seed: u64, emit: &mut dyn FnMut(Case)) {
         push(&base, &tree, s("-"));
         for k in 1..=max_cmds(&tree.acts) { push(&base, &tree, format!("z:{k}")); }
     } }
+    // 2a. the same with `context.config.clone()` as the rebuild's configuration (the overlay config 1 only contributes its env
+    //     and expected pack result), for the empty prefix
+    for inner in &singles {
+        let tree = Tree { cfg: 0, acts: vec![Act::RebuildCtx(1, inner.clone())] };
+        push(&base, &tree, s("-"));
+        for k in 1..=max_cmds(&tree.acts) { push(&base, &tree, format!("z:{k}")); }
+    }
     // 2b. (thorough) depth 4: a rebuild inside a rebuild
     if thorough {
         for p in &prefixes[..2] { for q in &prefixes[..3] { for inner in &singles {
@@ -181,7 +189,7 @@ fn generate(tier: &str, seed: u64, emit: &mut dyn FnMut(Case)) {
         let mut acts: Vec<Act> = vec![];
         for b in (0..nb).rev() {
             let mut mine: Vec<Act> = (0..r.below(4)).map(|_| r.pick(&all).clone()).collect();
-            if b + 1 < nb { mine.push(Act::Rebuild(b + 1, acts)); }
+            if b + 1 < nb { mine.push(if r.chance(1, 3) { Act::RebuildCtx(b + 1, acts) } else { Act::Rebuild(b + 1, acts) }); }
             acts = mine;
         }
         let tree = Tree { cfg: 0, acts };
